@@ -14,15 +14,23 @@ func init() {
 	verifHarnesses["HarnessC16TCPBad"] = HarnessC16TCPBad
 }
 
-// HarnessC16TCP: a = {frames F, first kind, cut budget, dribble}: a stream of F well-formed frames
+// HarnessC16TCP: a = {frames F, first kind, cut budget, dribble[, truncated]}: a stream of F well-formed frames
 // delivered through Read calls that return arbitrary segments; each frame surfaces exactly once,
-// in order; after the peer closed, Inbound is closed and the receiver has returned.
+// in order; after the peer closed, Inbound is closed and the receiver has returned. With
+// truncated = 1 the peer closes inside the last frame (after any number 1..len-1 of its bytes, header
+// or body): the frames before it surface, then Inbound is closed and the receiver returns.
 func HarnessC16TCP(a []int) {
 	F, kind0, cuts, dribble := a[0], a[1], a[2], a[3]
 	var want []ServicePackable
 	var stream []byte
 	for i := 0; i < F; i++ {
 		v, b := c16Frame(kind0 + i)
+		if len(a) > 4 && a[4] == 1 && i == F-1 {
+			stream = append(stream, b[:nondetLen(1, len(b)-1)]...)
+			F--
+			verifCover("C16.tcp.truncated")
+			break
+		}
 		want = append(want, v)
 		stream = append(stream, b...)
 	}
